@@ -79,7 +79,7 @@ claim(
 claim(
     "C21",
     "proof",
-    "For every symmetry transform class in the symmetries module and every option value, __call__ interpreted on arrays of free symbolic entries equals (v + g.v)/2 entry-wise (polynomial identity), g being the documented reflection / rotation / transposition and an involution; invariance under g, idempotence, unchanged symmetric inputs and mean preservation are checked on the extracted output as well. Layouts: 2-D designs with the singleton axis in each position (square where required), 3-D boxes incl. a cube. Holds for all real inputs of those shapes; extrapolation to other sizes rests on the size-uniformity of flips/transposes. Floating-point rounding is not decided.",
+    "For every symmetry transform class in the symmetries module and every option value, __call__ interpreted on arrays of free symbolic entries equals (v + g.v)/2 entry-wise (polynomial identity), g being the documented reflection / rotation / transposition and an involution; invariance under g, idempotence, unchanged symmetric inputs and mean preservation are checked on the extracted output as well. Layouts: 2-D designs with the singleton axis in each position (square where required), 3-D boxes incl. a cube. Holds for all real inputs of those shapes; extrapolation to other sizes rests on the size-uniformity of flips/transposes. With three parameter arrays under non-alphabetical keys every key gets the symmetrisation of its own array back. Exactness in floating point is decided structurally: the stored mean of every transform is an expression in the array and its image that is unchanged by swapping the two up to commutativity of + and * alone, so an entry and its mirror entry are the same floating-point computation; other rounding questions are not decided.",
     TB + "; sa/ndarr.py model of squeeze/expand_dims/reversed slices/.T/jnp.flip/jnp.transpose on concrete-shape arrays",
     "abstract interpretation on arrays of free symbols; entry-wise polynomial identity against the documented index-group element",
     "DESIGN.md §5 C21",
@@ -106,7 +106,7 @@ claim(
 claim(
     "C16",
     "other",
-    "Decides the reduction formulas by interpreting every detector update() twice on arrays of free symbolic entries (fields, cell-volume and face-area weights) for several concrete region shapes incl. size-one axes, resolved and reduced, and comparing the reduced record as a polynomial identity with the weighted mean / sum formed from the resolved record: field and phasor records = sum(v*w)/sum(w) per frequency and component; energy = sum(density*w) with density = 1/2 sum_c(|E_c|^2/inv_eps_c+|H_c|^2/inv_mu_c); Poynting record = E x conj(H), reduced = sum(S*area), '-' negates, single component = propagation component; closed surface = sum over active axes of (+last - first face) of S_a*area_a, 'inward' negates; inverse phasor detectors subtract what forward ones add; propagation-axis decision tables (fixed axis incl. 0 / unique size-one axis / error); face-area weight helper on resolved and uniform grids. Holds for all inputs of the interpreted shapes; summation order / round-off not decided.",
+    "Decides the reduction formulas by interpreting every detector update() twice on arrays of free symbolic entries (fields, cell-volume and face-area weights) for several concrete region shapes incl. size-one axes, resolved and reduced, and comparing the reduced record as a polynomial identity with the weighted mean / sum formed from the resolved record: field and phasor records = sum(v*w)/sum(w) per frequency and component; energy = sum(density*w) with density = 1/2 sum_c(|E_c|^2/inv_eps_c+|H_c|^2/inv_mu_c); Poynting record = E x conj(H), reduced = sum(S*area), '-' negates, single component = propagation component; closed surface = sum over active axes of (+last - first face) of S_a*area_a, 'inward' negates; inverse phasor detectors subtract what forward ones add; propagation-axis decision tables (fixed axis incl. 0 / unique size-one axis / error); face-area weight helper on resolved and uniform grids; every update override in the phasor family (closed surface, field projection) subtracts when inverse exactly the term it adds when forward. Holds for all inputs of the interpreted shapes; summation order / round-off not decided.",
     TB + "; sa/ndarr.py model of sum/mean/take/reshape/cross/stack on concrete-shape arrays; size-uniformity of those reductions",
     "abstract interpretation on concrete-shape arrays of free symbols; polynomial identity between reduced and resolved records; finite decision tables",
     "DESIGN.md §5 C16",
@@ -124,7 +124,7 @@ claim(
 claim(
     "C27",
     "other",
-    "Narrow: confluence of the placement fixpoint is not decided. Decided are the clauses order-independence rests on: every applier and both bookkeeping passes obey the set-once discipline (empty -> written, equal -> untouched, different -> error, never an overwrite), so a slot's final value cannot depend on which constraint reached it first; extension to the volume and the unresolved-object handler are reached only after a sweep that changed nothing; the sweep over constraints has no break/return/continue and catches applier exceptions without ending; _extend_to_inf_if_possible returns identical slices under every permutation of the object map and the constraint list on three small systems (extension constraints both ways, pending and resolved position constraints, size-only objects).",
+    "Narrow: confluence of the placement fixpoint is not decided. Decided are the clauses order-independence rests on: every applier and both bookkeeping passes obey the set-once discipline (empty -> written, equal -> untouched, different -> error, never an overwrite), so a slot's final value cannot depend on which constraint reached it first; extension to the volume and the unresolved-object handler are reached only after a sweep that changed nothing; the sweep over constraints has no break/return/continue and catches applier exceptions without ending; _extend_to_inf_if_possible returns identical slices under every permutation of the object map and the constraint list on three small systems (extension constraints both ways, pending and resolved position constraints, size-only objects). The position applier — the one applier that writes two slots — is confluent in its own slots: with either bound already holding the agreeing value it raises nothing, fills the other and reports progress (R27.4, every axis and margin form).",
     TB + "; opaque recording grid of C26; syntax-tree guard extraction for the fixpoint loop",
     "finite-state set-once typestate check by abstract interpretation; syntax-tree control-dependence rules; permutation enumeration by abstract interpretation",
     "DESIGN.md §5 C27",
@@ -133,7 +133,7 @@ claim(
 claim(
     "C28",
     "other",
-    "Decides the assembly of the static material arrays by abstract interpretation of _init_arrays up to the end of its placement loop on scenes of uniform-material boxes with symbolic, arbitrarily overlapping grid slices, concrete placement orders (ties, out-of-order listing) and concrete rational material tensors of every tier, built through Material.__init__ with tier flags computed by the repo's own container / material predicates. Per array the component count and, per component, the cell value as a polynomial in the boxes' region indicators are compared with the oracle: paint in ascending placement order, list order breaking ties, volume first, with 1/eps, 1/mu (3x3 inverse in the 9-tier) or sigma*c*dt/courant of each object's own tensor; count = widest tier any material needs; scalar 1 for a non-magnetic scene; no conductivity array for a lossless scene; container predicates consult the Material predicate of the same name. Exact for every overlap pattern at once. Multi-material voxel masks and sub-pixel smoothing are not decided.",
+    "Decides the assembly of the static material arrays by abstract interpretation of _init_arrays up to the end of its placement loop on scenes of uniform-material boxes with symbolic, arbitrarily overlapping grid slices, concrete placement orders (ties, out-of-order listing) and concrete rational material tensors of every tier, built through Material.__init__ with tier flags computed by the repo's own container / material predicates. Per array the component count and, per component, the cell value as a polynomial in the boxes' region indicators are compared with the oracle: paint in ascending placement order, list order breaking ties, volume first, with 1/eps, 1/mu (3x3 inverse in the 9-tier) or sigma*c*dt/courant of each object's own tensor; count = widest tier any material needs; scalar 1 for a non-magnetic scene; no conductivity array for a lossless scene; container predicates consult the Material predicate of the same name. Exact for every overlap pattern at once. The statement that sorts the static objects, interpreted on four mixed lists of uniform and multi-material objects, orders by placement order alone with list order breaking ties; _invert_property is the entry-wise reciprocal on the 1- / 3-component tiers and the row-major matrix inverse of a general non-symmetric tensor on the 9-component tier (M inv = 1 as an identity in nine free entries). Multi-material voxel masks and sub-pixel smoothing are not decided.",
     TB + "; sa/ndarr.py indicator algebra for .at[region].set; prefix slicing of _init_arrays at the end of the placement loop; models of create_named_sharded_matrix / sharding_preserving_set",
     "abstract interpretation of a function prefix over an indicator-algebra array domain; polynomial identity against a painter's-order oracle; syntax-tree sibling-name rule",
     "DESIGN.md §5 C28",
@@ -142,7 +142,7 @@ claim(
 claim(
     "C32",
     "other",
-    "Decides the unfolding code on arrays of free symbolic entries: the 36-entry parity table equals the image-field rule (electric wall: normal E / tangential H even, tangential E / normal H odd; magnetic wall opposite) and the on-plane table equals the Yee staggering; unfold_fields for all 26 symmetry tuples x {E,H} keeps the input as upper half and fills the lower half with parity*kept[mirror(index)] (n-1-j off-plane, n-j on-plane with the outermost sample repeating its neighbour); unfold_array with signs and on-plane axes; _unfold_one_detector for field, phasor, energy and Poynting detectors, spatial records with and without co-location, where each unfolded row must carry the parity of the component that row actually holds (read off the record's own atoms); and for reduced records unfolding the reduced value equals reducing the unfolded spatial record (mean for field/phasor, sum for energy/Poynting) with 1, 2 and 3 touched planes of either kind. Which detectors straddle a plane, and round-off, are not decided.",
+    "Decides the unfolding code on arrays of free symbolic entries: the 36-entry parity table equals the image-field rule (electric wall: normal E / tangential H even, tangential E / normal H odd; magnetic wall opposite) and the on-plane table equals the Yee staggering; unfold_fields for all 26 symmetry tuples x {E,H} keeps the input as upper half and fills the lower half with parity*kept[mirror(index)] (n-1-j off-plane, n-j on-plane with the outermost sample repeating its neighbour); unfold_array with signs and on-plane axes; _unfold_one_detector for field, phasor, energy and Poynting detectors, spatial records with and without co-location, where each unfolded row must carry the parity of the component that row actually holds (read off the record's own atoms); and for reduced records unfolding the reduced value equals reducing the unfolded spatial record (mean for field/phasor, sum for energy/Poynting) with 1, 2 and 3 touched planes of either kind. unfold_detector_states hands each detector touched[a] = symmetry[a] on exactly the axes whose plane clipped it and count = the number of those axes (26 symmetries x 8 crossing patterns), returns detectors that cross no plane and orphan states as stored. Which detectors straddle a plane (the geometric predicate), and round-off, are not decided.",
     TB + "; sa/ndarr.py model of flip / concatenate / reshape / broadcasting on concrete-shape arrays; size-uniformity of those index maps",
     "finite decision tables by abstract interpretation; abstract interpretation on arrays of free symbols with entry-wise polynomial identity against the documented mirror index map",
     "DESIGN.md §5 C32",
@@ -169,7 +169,7 @@ claim(
 claim(
     "C22",
     "other",
-    "Decides GaussianSmoothing2D._apply_smoothing by abstract interpretation on designs of free symbolic entries (singleton axis in each position, shapes larger and smaller than the kernel half-width) with default and explicit symbolic padding arrays: every output entry is a linear form in design and padding entries with input-independent coefficients that are non-negative combinations of kernel weights and add up to the full kernel sum, which the real kernel function is shown to normalise to 1 (kernel = exp(-r^2/(2 sigma^2))/sum over arange(-h,h+1)^2, even in both coordinates, requested with size 6*std+1) — so constants are preserved, the convolution's zero fill never contributes and outputs stay within the range of design and padding values; and the transform commutes with mirroring along either in-plane axis when the paddings are mirrored accordingly (entry-wise identity between two interpretations). Holds for all real inputs of the interpreted shapes; float rounding is not decided.",
+    "Decides GaussianSmoothing2D._apply_smoothing by abstract interpretation on designs of free symbolic entries (singleton axis in each position, shapes larger and smaller than the kernel half-width) with default and explicit symbolic padding arrays: every output entry is a linear form in design and padding entries with input-independent coefficients that are non-negative combinations of kernel weights and add up to the full kernel sum, which the real kernel function is shown to normalise to 1 (kernel = exp(-r^2/(2 sigma^2))/sum over arange(-h,h+1)^2, even in both coordinates, requested with size 6*std+1) — so constants are preserved, the convolution's zero fill never contributes and outputs stay within the range of design and padding values; and the transform commutes with mirroring along either in-plane axis when the paddings are mirrored accordingly (entry-wise identity between two interpretations). A design with matching padding arrays is never rejected, and the same plane is smoothed to the same result whichever of the three axes is the singleton one. Holds for all real inputs of the interpreted shapes; float rounding is not decided.",
     TB + "; models of jnp.tile/full/meshgrid/arange and scipy.signal.convolve(mode='same'); kernel weights positive",
     "abstract interpretation on arrays of free symbols; linear-form extraction (symbolic derivative) with weight-sum and sign conditions; sibling identity under mirroring",
     "DESIGN.md §5 C22",
